@@ -6,7 +6,7 @@
     PARTIAL: the round-trip theorem parse(print c) = abs c is proved here for the stream-selector
     sub-grammar with an unbounded number of matchers; for the rest of the grammar it is established by the
     correspondence against generator-computed expectations, not by a theorem (see DESIGN.md). *)
-From LogQLV Require Import Base.Bytes Base.FloatX Model.Tables Model.Syntax Model.Parser Proofs.ParserP Proofs.PipelineP.
+From LogQLV Require Import Base.Bytes Base.FloatX Model.Tables Model.Syntax Model.Parser Proofs.ParserP Proofs.PipelineP Proofs.LogRangeP Proofs.QueryP.
 
 (** every selector {l1 op1 "v1", ..., ln opn "vn"} with any number of matchers, all four operators, any value bytes (regex
     values that compile) and any label names -- whether the lexer classifies a name as Ident or as a keyword (by, on, json,
@@ -61,6 +61,78 @@ Proof.
        end; try reflexivity; try discriminate; try (left; reflexivity); try (left; discriminate);
        try (repeat constructor; cbn; intuition discriminate); try exact I.
 Qed.
+
+(** log-range expressions, the operand of every range aggregation:  {selector} stage ... stage [range] offset d  (pipeline
+    before the range) and  {selector} [range] offset d : selector, stages, range and offset come back exactly, consuming
+    exactly the printed tokens ([dur_tok txt ns] is a Duration token whose text the lexer's ParseDuration read as ns). *)
+Theorem parse_print_logrange_partial :
+  forall (anch : bytes -> bool) (re_names : bytes -> option (list bytes)) (cls : bytes -> ttype)
+         (sel : list matcher) (sts : list stage) (rtxt : bytes) (rns : Z) (off : option (bytes * Z)) (p r : list token) (fuel : nat),
+  Forall (wf_lmatcher anch cls) sel -> Forall (fun m => ttype_eqb (cls (m_label m)) TCloseBrace = false) sel ->
+  chain_ok anch re_names sts (print_range rtxt rns off ++ r) ->
+  (length sel < fuel)%nat -> (fuel_needed sts < fuel)%nat ->
+  (off = None -> not_offset r) -> (sts = [] -> closes_range r) ->
+  parse_range_expr fuel {| prev := p; rest := print_logrange anch re_names cls sel sts rtxt rns off ++ r |} =
+    POk {| r_sel := sel; r_range := rns; r_pipe := sts; r_unwrap := None; r_offset := option_map snd off |}
+        {| prev := rev (print_logrange anch re_names (fun _ => TIdent) sel sts rtxt rns off) ++ p; rest := r |}.
+Proof. exact logrange_print_lemma. Qed.
+Print Assumptions parse_print_logrange_partial.
+
+Example logrange_roundtrip_example :
+  let anch := fun _ : bytes => true in
+  let rn := fun _ : bytes => Some (@nil bytes) in
+  let sel := [ {| m_label := ["a"%byte]; m_op := OpEq; m_value := ["v"%byte] |} ] in
+  let sts := [SLine OpEq ["x"%byte] false; SJson [] []] in
+  match parse_range_expr 9 {| prev := []; rest := print_logrange anch rn (fun _ => TIdent) sel sts ["5"%byte; "m"%byte] 300000000000 (Some (["1"%byte; "m"%byte], 60000000000)) ++ [plain TCloseParen []] |} with
+  | POk lr st => r_sel lr = sel /\ r_pipe lr = sts /\ r_range lr = 300000000000 /\ r_offset lr = Some 60000000000 /\ rest st = [plain TCloseParen []]
+  | _ => False
+  end.
+Proof. vm_compute. repeat split. Qed.
+
+(** whole queries through [parse_tokens] (logql.Parse after tokenizing, fuel and the end-of-input check included):
+    every log query  {selector} stage ... stage  over the fragment is accepted and denotes exactly its selector and stages *)
+Theorem log_query_parse :
+  forall (anch : bytes -> bool) (re_names : bytes -> option (list bytes)) (cls : bytes -> ttype) (sel : list matcher) (sts : list stage),
+  Forall (wf_lmatcher anch cls) sel -> Forall (fun m => ttype_eqb (cls (m_label m)) TCloseBrace = false) sel ->
+  chain_ok anch re_names sts [] ->
+  parse_tokens (print_selector anch re_names cls sel ++ print_stages anch re_names sts) = Parsed (ELog sel sts).
+Proof. exact log_query_parse_lemma. Qed.
+Print Assumptions log_query_parse.
+
+(** ... and every range aggregation without unwrap  op({selector} stage ... stage [range] offset d)  with
+    op in count_over_time / rate / bytes_over_time / bytes_rate / absent_over_time (what validate() admits without unwrap,
+    parameter or grouping) denotes exactly that operation over that log range *)
+Theorem range_agg_parse :
+  forall (anch : bytes -> bool) (re_names : bytes -> option (list bytes)) (cls : bytes -> ttype) (o : rangeop)
+         (sel : list matcher) (sts : list stage) (rtxt : bytes) (rns : Z) (off : option (bytes * Z)),
+  range_validate o None None false = true ->
+  Forall (wf_lmatcher anch cls) sel -> Forall (fun m => ttype_eqb (cls (m_label m)) TCloseBrace = false) sel ->
+  chain_ok anch re_names sts (print_range rtxt rns off ++ [plain TCloseParen []]) ->
+  parse_tokens (print_range_agg anch re_names cls o sel sts rtxt rns off) =
+    Parsed (ERange o {| r_sel := sel; r_range := rns; r_pipe := sts; r_unwrap := None; r_offset := option_map snd off |} None None).
+Proof. exact range_agg_parse_lemma. Qed.
+Print Assumptions range_agg_parse.
+
+(** ... and a vector aggregation with a grouping clause over it:  sum by (a, b) (count_over_time({..} .. [5m]))  (any of
+    sum avg count max min stddev stdvar, `by` or `without`, any label list) denotes exactly that aggregation, grouping and operand *)
+Theorem vec_agg_parse :
+  forall (anch : bytes -> bool) (re_names : bytes -> option (list bytes)) (cls : bytes -> ttype) (v : vectorop) (g : grouping) (o : rangeop)
+         (sel : list matcher) (sts : list stage) (rtxt : bytes) (rns : Z) (off : option (bytes * Z)),
+  vector_validate v None (Some g) = true -> range_validate o None None false = true ->
+  Forall (wf_lmatcher anch cls) sel -> Forall (fun m => ttype_eqb (cls (m_label m)) TCloseBrace = false) sel ->
+  chain_ok anch re_names sts (print_range rtxt rns off ++ [plain TCloseParen []; plain TCloseParen []]) ->
+  parse_tokens (print_vec_agg anch re_names cls v g o sel sts rtxt rns off) = Parsed (EVecAgg v (range_expr o sel sts rns off) None (Some g)).
+Proof. exact vec_agg_parse_lemma. Qed.
+Print Assumptions vec_agg_parse.
+
+Example range_agg_example :
+  let anch := fun _ : bytes => true in
+  let rn := fun _ : bytes => Some (@nil bytes) in
+  let sel := [ {| m_label := ["a"%byte]; m_op := OpEq; m_value := ["v"%byte] |} ] in
+  range_validate RangeOpBytesRate None None false = true /\
+  parse_tokens (print_range_agg anch rn (fun _ => TIdent) RangeOpBytesRate sel [SLine OpNotRe ["x"%byte] false; SLogfmt [["k"%byte]] []] ["5"%byte; "m"%byte] 300000000000 None) =
+    Parsed (ERange RangeOpBytesRate {| r_sel := sel; r_range := 300000000000; r_pipe := [SLine OpNotRe ["x"%byte] false; SLogfmt [["k"%byte]] []]; r_unwrap := None; r_offset := None |} None None).
+Proof. split; vm_compute; reflexivity. Qed.
 
 (** static rules *)
 Theorem rule_parameter_only_for_quantile : forall op p g u,
